@@ -188,7 +188,9 @@ type c17Gen struct {
 	queue  []c17Trig
 	maxID  uint64
 	burstH uint64
-	burstT int64
+	burstT int64       // unix nanoseconds
+	times  []time.Time // the block times of the whole history, planned up front (with sub-second parts)
+	bi     int         // index of the block being planned
 	style  int
 	limits map[uint64]uint64 // gas limits seen at the last observation
 	nActs  map[uint64]int    // number of actions per created trigger
@@ -246,17 +248,28 @@ func (g *c17Gen) planCreate() *c17Plan {
 		evCoq = fmt.Sprintf("(EvHeight %d)", h)
 		evDesc = fmt.Sprintf("height>=%d", h)
 	case k < 7: // time
-		tt := n.now.Unix() + 5 + int64(1+r.Intn(25))
-		if g.burstT > n.now.Unix()+5 && r.Intn(100) < 60 {
+		// a time relative to the exact time of this or a coming block: equal to it, a nanosecond or a few
+		// hundred milliseconds before/after it (same second, earlier and later fraction)
+		k := g.bi + r.Intn(5)
+		var ref time.Time
+		if k < len(g.times) {
+			ref = g.times[k]
+		} else {
+			ref = g.times[len(g.times)-1].Add(time.Duration(1+r.Intn(20)) * time.Second)
+		}
+		deltas := []time.Duration{0, 1, -1, time.Millisecond, -time.Millisecond, 300 * time.Millisecond, -300 * time.Millisecond,
+			500 * time.Millisecond, 999 * time.Millisecond, time.Duration(1 + r.Intn(999_999_999)), -time.Duration(1 + r.Intn(999_999_999))}
+		tt := ref.Add(deltas[r.Intn(len(deltas))]).UnixNano()
+		if g.burstT > g.times[g.bi].UnixNano() && r.Intn(100) < 50 {
 			tt = g.burstT
 		}
 		if r.Intn(15) == 0 {
-			tt = n.now.Unix() + 5 - int64(r.Intn(2)*3)
+			tt = g.times[g.bi].UnixNano() - int64(r.Intn(2))*int64(1+r.Intn(2_000_000_000)) // now or earlier: rejected
 			shape = "past-time"
 		}
-		ev = &triggertypes.BlockTimeEvent{Time: time.Unix(tt, 0).UTC()}
+		ev = &triggertypes.BlockTimeEvent{Time: time.Unix(0, tt).UTC()}
 		evCoq = fmt.Sprintf("(EvTime %d)", tt)
-		evDesc = fmt.Sprintf("time>=%d", tt)
+		evDesc = fmt.Sprintf("time>=%s", time.Unix(0, tt).UTC().Format("15:04:05.000000000"))
 	default: // transaction event
 		x := r.Intn(g.nAcc)
 		amt := fmt.Sprintf("%d%s", 7+r.Intn(3), c17EvtDen)
@@ -358,7 +371,41 @@ func (g *c17Gen) planCreate() *c17Plan {
 		}
 		msgs = append(msgs, &banktypes.MsgSend{FromAddress: g.addrStr(from), ToAddress: g.addrStr(to),
 			Amount: sdk.Coins{sdk.Coin{Denom: c17TrigDen, Amount: sdkmath.NewInt(amt)}}})
-		acts = append(acts, fmt.Sprintf("{| a_from := %d; a_to := %d; a_amt := %d |}", from, to, amt))
+		acts = append(acts, fmt.Sprintf("{| a_from := %d; a_to := %d; a_amt := %d; a_co := [] |}", from, to, amt))
+	}
+	nested := false
+	// sometimes one more action with TWO required signers: a nested MsgCreateTriggerRequest (authorities x, y)
+	// whose own condition is a past height, so that it passes ValidateBasic and always fails when run
+	if na > 0 && r.Intn(8) == 0 && (len(auths) > 1 || r.Intn(3) == 0) {
+		x := auths[r.Intn(len(auths))]
+		y := auths[len(auths)-1]
+		if len(auths) == 1 || r.Intn(3) == 0 {
+			y = (x + 1 + r.Intn(g.nAcc-1)) % g.nAcc
+		}
+		if y != x {
+			yIsAuth := false
+			for _, a := range auths {
+				if a == y {
+					yIsAuth = true
+				}
+			}
+			if !yIsAuth {
+				noAnte = true
+				if shape == "valid" {
+					shape = "action-cosigner-not-authority"
+				}
+			} else if shape == "valid" {
+				shape = "valid-two-signer-action"
+			}
+			inner := triggertypes.MustNewCreateTriggerRequest([]string{g.addrStr(x), g.addrStr(y)},
+				&triggertypes.BlockHeightEvent{BlockHeight: 1},
+				[]sdk.Msg{banktypes.NewMsgSend(n.accts[x].addr, n.accts[y].addr, sdk.NewCoins(sdk.NewInt64Coin(c17TrigDen, 1)))})
+			nested = true
+			pos := r.Intn(len(msgs) + 1)
+			msgs = append(msgs[:pos], append([]sdk.Msg{inner}, msgs[pos:]...)...)
+			acts = append(acts[:pos], append([]string{fmt.Sprintf("{| a_from := %d; a_to := %d; a_amt := 0; a_co := [%d] |}", x, y, y)}, acts[pos:]...)...)
+			na++
+		}
 	}
 	// signers
 	signers := append([]int{}, auths...)
@@ -389,6 +436,9 @@ func (g *c17Gen) planCreate() *c17Plan {
 	base := uint64(70000 + 5800*na + 1500*(len(auths)-1))
 	if _, ok := ev.(*triggertypes.TransactionEvent); ok {
 		base += 3000
+	}
+	if nested {
+		base += 9000
 	}
 	var target uint64
 	lowGas := false
@@ -603,15 +653,38 @@ func c17History(t *testing.T, r *rand.Rand, w *CaseWriter, hi int) {
 	if tier() == "quick" && nBlocks > 18 {
 		nBlocks = 10 + r.Intn(9)
 	}
+	// block times: a few seconds apart, with sub-second parts (none, round milliseconds, arbitrary nanoseconds)
+	at := n.now
+	for b := 0; b < nBlocks; b++ {
+		dt := 5
+		if r.Intn(6) == 0 {
+			dt = 1 + r.Intn(30)
+		}
+		at = at.Truncate(time.Second).Add(time.Duration(dt) * time.Second)
+		switch r.Intn(5) {
+		case 0:
+		case 1:
+			at = at.Add(time.Duration(r.Intn(1000)) * time.Millisecond)
+		case 2:
+			at = at.Add(200 * time.Millisecond)
+		case 3:
+			at = at.Add(999_999_999)
+		default:
+			at = at.Add(time.Duration(r.Intn(1_000_000_000)))
+		}
+		g.times = append(g.times, at)
+	}
 	if g.style != 1 { // burst: many triggers become ready in the same block
 		g.burstH = uint64(n.height) + 3 + uint64(r.Intn(4))
-		g.burstT = n.now.Unix() + 5*int64(3+r.Intn(5))
+		bt := g.times[(2+r.Intn(5))%nBlocks]
+		g.burstT = bt.Add([]time.Duration{0, 1, -1, 400 * time.Millisecond, -400 * time.Millisecond}[r.Intn(5)]).UnixNano()
 	}
 	var blocks, descs []string
 	executedAny, carried := false, false
 	for b := 0; b < nBlocks; b++ {
 		nt := r.Intn(7)
-		if g.burstH > uint64(n.height+1) || g.burstT > n.now.Unix()+5 {
+		g.bi = b
+		if g.burstH > uint64(n.height+1) || g.burstT > g.times[b].UnixNano() {
 			nt += 2
 		}
 		if b >= nBlocks-3 {
@@ -658,13 +731,9 @@ func c17History(t *testing.T, r *rand.Rand, w *CaseWriter, hi int) {
 		for i, p := range plans {
 			txs[i] = p.bz
 		}
-		dt := 5
-		if r.Intn(6) == 0 {
-			dt = 1 + r.Intn(30)
-		}
 		queuedBefore := len(g.queue)
 		prevLimits := g.limits
-		res := n.block(n.now.Add(time.Duration(dt)*time.Second), txs)
+		res := n.block(g.times[b], txs)
 		if res == nil {
 			descs = append(descs, fmt.Sprintf("h%d: CHAIN HALTED: %v", n.height, n.haltErr))
 			w.Count("chain_halts")
@@ -774,7 +843,7 @@ func c17History(t *testing.T, r *rand.Rand, w *CaseWriter, hi int) {
 			descs = append(descs, fmt.Sprintf("h%d: %s -> %v", n.height, p.desc, ok))
 		}
 		blk := fmt.Sprintf("{| b_height := %d; b_time := %d; b_oracle := %s; b_txs := %s; b_events := %s |}",
-			n.height, n.now.Unix(), coqList(oracle), coqList(txT), coqList(evT))
+			n.height, n.now.UnixNano(), coqList(oracle), coqList(txT), coqList(evT))
 		ob := fmt.Sprintf("{| ob_exec := %s; ob_txres := %s; ob_reg := %s; ob_queue := %s; ob_bal := %s |}",
 			coqList(exec), coqList(resT), regT, queueT, balT)
 		blocks = append(blocks, "("+blk+",\n    "+ob+")")
